@@ -27,6 +27,7 @@ struct Explorer {
   bool           deadline_hit = false;
   uint64_t       dup_hits = 0;
   int            completed_depth = 0;
+  int            audit_depth = 0;
 
   bool oracle_on(const std::string &key) const
   {
@@ -327,6 +328,31 @@ struct Explorer {
       }
     }
     rep.count("cfgs_explored");
+    if (audit_depth > 0 && args.nshards == 1) {
+      // De-duplication audit: every state reached WITHOUT merging (to a smaller depth) must have a key that the merged
+      // search also reached; otherwise two states with different futures share a key somewhere.
+      std::vector<History> fr{ History() }, nx;
+      for (int d = 0; d < audit_depth; d++) {
+        nx.clear();
+        for (auto &h : fr) {
+          Result r0 = exec(cfgi, h, true, false, false);
+          for (auto &ev : r0.enabled) {
+            History h2 = h;
+            h2.push_back(ev);
+            Result r = exec(cfgi, h2, false, false, false);
+            rep.count("audit_states");
+            bool bad = false;
+            for (auto &v : r.viols)
+              if (oracle_on(v.key)) bad = true;
+            if (bad) continue;
+            if (!seen.count(vf::hash128(r.key)))
+              rep.internal_errors.push_back("de-duplication audit: state of " + hist_json(h2) + " (cfg " + fam->cfgs[(size_t)cfgi].name + ") was never reached by the merged search");
+            nx.push_back(h2);
+          }
+        }
+        fr.swap(nx);
+      }
+    }
   }
 
   void run()
@@ -419,6 +445,7 @@ int main(int argc, char **argv)
   ex.depth      = (int)a.geti("depth", fam->max_depth);
   ex.maxdev     = (int)a.geti("dev", fam->max_dev);
   ex.dedup      = a.geti("dedup", 1) != 0;
+  ex.audit_depth = (int)a.geti("audit", 0);
   ex.t_end      = vf::now_s() + a.deadline - 3;
   ex.rep.engine = "exa";
   ex.rep.family = fam->name;
